@@ -492,6 +492,7 @@ class Recorder(object):
         self.order = []
         self.policy_names_for = policy_names_for
         self.dropped = 0
+        self.keep_signed = False
 
     def _coin_of(self, tx):
         name = type(tx).__module__
@@ -602,6 +603,8 @@ class Recorder(object):
         e["changed"] = [i + 1 for i in range(len(pr)) if unlocking_of(tx, i) != tok["unl"][i]]
         e["frame"] = self._frame_digest(tx)
         s["ev"].append(e)
+        if self.keep_signed and all(e["valid"]):
+            s["final"] = copy.deepcopy(tx)        # (tests go on to modify their transactions)
 
     def traces(self):
         out = []
@@ -613,7 +616,7 @@ class Recorder(object):
         return out
 
 
-def record_repo_tests(repo, modules, policy_names_for):
+def record_repo_tests(repo, modules, policy_names_for, want_sessions=False):
     """run test modules of the repository with Solver.sign (and solver_test's manual solve helper)
     wrapped by a Recorder; returns (traces, tests run, failures, dropped sessions)"""
     import io
@@ -621,6 +624,7 @@ def record_repo_tests(repo, modules, policy_names_for):
     import unittest
     from pycoin.coins.bitcoin.Solver import Solver
     rec = Recorder(policy_names_for)
+    rec.keep_signed = want_sessions
     orig_sign = Solver.sign
 
     def sign(self, hash160_lookup, tx_in_idx_set=None, hash_type=None, **kwargs):
@@ -661,4 +665,186 @@ def record_repo_tests(repo, modules, policy_names_for):
         Solver.sign = orig_sign
         for cls, orig in patched:
             cls.do_test_solve = orig
+    if want_sessions:
+        return rec
     return rec.traces(), res.testsRun, len(res.failures) + len(res.errors), rec.dropped
+
+
+def repo_signed_txs(repo, modules, policy_names_for):
+    """the completely signed transactions the repository's signing tests end with:
+    [(coin, tx, kinds, hash types)] (one hash type per input)"""
+    rec = record_repo_tests(repo, modules, policy_names_for, want_sessions=True)
+    out = []
+    for s in rec.order:
+        if not s["ok"] or not s["ev"]:
+            continue
+        last = s["ev"][-1]
+        if not last["valid"] or not all(last["valid"]) or "final" not in s:
+            continue
+        hts = []
+        for sg in last["signed"]:
+            bs = set(b for k, b in sg)
+            hts.append(bs.pop() & ~0x40 if len(bs) == 1 else None)
+        if any(h not in (1, 2, 3, 129, 130, 131) for h in hts):
+            continue
+        kinds = [pz.kind + (":u" if pz.form == "u" and pz.kind == "p2pkh" else "") for pz in s["pzs"]]
+        out.append((s["coin"], s["final"], kinds, hts))
+    return out
+
+
+# ================================================================ C06: mutate / re-validate
+# Concretization of the abstract transaction of spec/TxValidate.tla.  Token conventions of the
+# spec: per input record (travelling with the record) oph/opi/seq/amt 0 = as signed, 1 = changed;
+# spk = id as signed, 10 + id changed; output contents are tokens 1..3 (token j = content of the
+# j-th output as signed, or a fixed fresh content when the signed transaction has fewer outputs).
+
+NOPABLE = ("p2pkh", "p2pk", "ms_bare", "p2pkh:u")
+SV_KINDS = {"base": ("p2pkh", "p2pk", "ms_p2sh", "ms_bare", "p2pkh:u"),
+            "witness": ("p2wpkh", "ms_p2wsh", "p2sh_p2wpkh", "ms_p2sh_p2wsh"),
+            "forkid": ("p2pkh", "ms_p2sh", "p2pk", "ms_bare")}
+
+
+def desc_for(kind, k):
+    """puzzle descriptor for input k (1-based) of a C06 case: distinct keys per input"""
+    form = "c"
+    if ":" in kind:
+        kind, form = kind.split(":")
+    base = 3 * k
+    if kind.startswith("ms_"):
+        m, keys = ((2, [base + 1, base + 2]) if kind in ("ms_p2sh", "ms_p2wsh") else (1, [base + 1, base + 2]))
+    else:
+        m, keys = 1, [base + 1]
+    return {"kind": kind, "m": m, "keys": keys, "form": form}
+
+
+class TxUnderTest(object):
+    """a signed transaction (inputs signed one by one with their own hash types through Tx.sign)
+    plus, per input record, the as-signed values needed to apply / undo abstract mutations"""
+
+    def __init__(self, coin, kinds, hts, nout, tx=None):
+        self.coin = coin
+        self.N = network(coin)
+        if tx is None:
+            shape = [desc_for(kd, k + 1) for k, kd in enumerate(kinds)]
+            ses = Session(coin, shape, n_out=nout)
+            for k, ht in enumerate(hts):
+                ses.sign({"mech": "lookup", "K": shape[k]["keys"], "I": [k + 1], "ht": ht, "scr": True,
+                          "reg": [], "sec": [], "fresh": True})
+            tx = ses.tx
+        else:
+            # a transaction signed elsewhere (the repository's tests): plain lists of plain TxOut records
+            tx.txs_in = list(tx.txs_in)
+            tx.txs_out = list(tx.txs_out)
+            tx.unspents = [type(tx).TxOut(u.coin_value, bytes(u.script)) for u in tx.unspents]
+        self.tx = tx
+        self.meta = [{"id": k + 1, "oph": t.previous_hash, "opi": t.previous_index, "seq": t.sequence,
+                      "amt": tx.unspents[k].coin_value, "spk": bytes(tx.unspents[k].script)}
+                     for k, t in enumerate(tx.txs_in)]
+        self.out_amt = {j + 1: o.coin_value for j, o in enumerate(tx.txs_out)}
+        self.out_spk = {j + 1: bytes(o.script) for j, o in enumerate(tx.txs_out)}
+        for v in (1, 2, 3):
+            self.out_amt.setdefault(v, 4242 + v)
+            self.out_spk.setdefault(v, bytes([0x51 + 7 + v, 0x51 + v]))
+        self.orig = copy.deepcopy((tx.version, tx.lock_time, tx.txs_in, tx.txs_out, tx.unspents, self.meta))
+        self.n_inserted = 0
+
+    def clone(self):
+        c = copy.copy(self)
+        c.tx = copy.deepcopy(self.tx)
+        c.meta = copy.deepcopy(self.meta)
+        return c
+
+    def _other_puzzle(self, spk):
+        """a puzzle of the same shape guarded by other keys / another script hash"""
+        out = bytearray()
+        for (op, data, pc, npc) in self.N.script.get_opcodes(spk):
+            chunk = bytearray(spk[pc:npc])
+            if data is not None and len(data) in (20, 32, 33, 65):
+                chunk[-1] ^= 1
+            out += chunk
+        return bytes(out)
+
+    def apply(self, x):
+        tx = self.tx
+        Tx = self.N.tx
+        m, a, b = x["m"], x["a"], x["b"]
+        p = a - 1
+        if m == "ver":
+            tx.version = self.orig[0] if b == 0 else self.orig[0] + 1
+        elif m == "lock":
+            tx.lock_time = self.orig[1] if b == 0 else self.orig[1] + 17
+        elif m == "oph":
+            o = self.meta[p]["oph"]
+            tx.txs_in[p].previous_hash = o if b == 0 else hashlib.sha256(o).digest()
+        elif m == "opi":
+            tx.txs_in[p].previous_index = self.meta[p]["opi"] + b
+        elif m == "seq":
+            tx.txs_in[p].sequence = self.meta[p]["seq"] - 5 * b
+        elif m == "spent_amt":
+            tx.unspents[p].coin_value = self.meta[p]["amt"] + b
+        elif m == "spent_spk":
+            o = self.meta[p]["spk"]
+            k = self.meta[p]["id"]
+            tx.unspents[p].script = o if b == k else (o + b"\x61") if b == 30 + k else self._other_puzzle(o)
+        elif m == "out_amt":
+            tx.txs_out[p].coin_value = self.out_amt[b]
+        elif m == "out_spk":
+            tx.txs_out[p].script = self.out_spk[b]
+        elif m == "ins_insert":
+            self.n_inserted += 1
+            h = hashlib.sha256(b"verif C06 inserted input %d" % self.n_inserted).digest()
+            spk = self.N.contract.for_p2pkh(hashlib.sha256(h).digest()[:20])
+            tx.txs_in.insert(p, Tx.TxIn(h, 0))
+            tx.unspents.insert(p, Tx.TxOut(777, spk))
+            self.meta.insert(p, {"id": 0, "oph": h, "opi": 0, "seq": 0xFFFFFFFF, "amt": 777, "spk": spk})
+        elif m == "ins_remove":
+            del tx.txs_in[p]
+            del tx.unspents[p]
+            del self.meta[p]
+        elif m == "ins_swap":
+            q = b - 1
+            for lst in (tx.txs_in, tx.unspents, self.meta):
+                lst[p], lst[q] = lst[q], lst[p]
+        elif m == "outs_insert":
+            tx.txs_out.insert(p, Tx.TxOut(self.out_amt[b], self.out_spk[b]))
+        elif m == "outs_remove":
+            del tx.txs_out[p]
+        elif m == "outs_swap":
+            q = b - 1
+            tx.txs_out[p], tx.txs_out[q] = tx.txs_out[q], tx.txs_out[p]
+        elif m == "unl_swap":
+            q = b - 1
+            tp, tq = tx.txs_in[p], tx.txs_in[q]
+            tp.script, tq.script = tq.script, tp.script
+            tp.witness, tq.witness = tq.witness, tp.witness
+        elif m == "forget":
+            tx.unspents[p] = None
+        elif m == "revert":
+            ver, lock, tin, tout, uns, meta = copy.deepcopy(self.orig)
+            tx.version, tx.lock_time = ver, lock
+            tx.txs_in[:] = tin
+            tx.txs_out[:] = tout
+            tx.unspents[:] = uns
+            self.meta = meta
+        else:
+            raise ValueError(m)
+
+    def verdicts(self):
+        """what the API reports on the long-lived object and on a fresh object parsed from its bytes,
+        given the same spent outputs: {"long": [..], "long_bad": n, "fresh": [..], "fresh_bad": n, "exc": ..}"""
+        tx = self.tx
+        out = {}
+        try:
+            n = len(tx.txs_in)
+            out["long"] = [bool(tx.is_solution_ok(i)) for i in range(n)]
+            out["long_bad"] = tx.bad_solution_count()
+            f = type(tx).from_bin(tx.as_bin())
+            f.unspents = [None if u is None else type(u)(u.coin_value, bytes(u.script)) for u in tx.unspents]
+            out["fresh"] = [bool(f.is_solution_ok(i)) for i in range(n)]
+            out["fresh_bad"] = f.bad_solution_count()
+            out["again"] = [bool(tx.is_solution_ok(i)) for i in reversed(range(n))][::-1]
+        except Exception as e:  # noqa
+            import traceback
+            out["exc"] = "%s: %s" % (type(e).__name__, e)
+            out["tb"] = traceback.format_exc()[-900:]
+        return out
